@@ -27,6 +27,8 @@ dicts, not a restriction on automata).
 import AutomataVerif.Proofs.EpsOpsA
 import AutomataVerif.Proofs.EpsOpsB
 import AutomataVerif.Proofs.NFAOpsUnary
+import AutomataVerif.Proofs.NFAOpsReverse
+import AutomataVerif.Proofs.NFAOpsShuffle
 import AutomataVerif.Props.C01
 
 namespace AV.Props.C08
@@ -110,5 +112,47 @@ theorem C08_kleene_star (nat : Nat → σ) (hnat : Function.Injective nat) (A : 
       have hne : q ≠ addNewState nat A.states := fun e => hfresh (e ▸ hq)
       simp [nfaTextbook, starRaw, hne]
     · simp [nfaTextbook, starRaw]
+
+/-! ## reverse -/
+
+/-- **C08 (reverse).**  `A.reverse()` never fails, returns a valid NFA, and its language is
+the set of reversed words of `L(A)`. -/
+theorem C08_reverse (nat : Nat → σ) (hnat : Function.Injective nat) (A : AV.NFA σ α) (hA : A.Valid) :
+    ∃ R, NFA.reverse nat A = .ok R ∧ R.Valid ∧ Lang R = (Lang A).reverse := by
+  have hfresh := addNewState_fresh nat (fun i j h => hnat h) A.states
+  obtain ⟨R, hR, hval, _, _, hinit, hfin, hn_none, hn_some, hstep⟩ :=
+    reverse_spec nat (fun i j h => hnat h) A hA
+  refine ⟨R, hR, hval, ?_⟩
+  refine accepts_reverse (nfaTextbook R) (nfaTextbook A) {q | q ∈ A.states}
+    (addNewState nat A.states) A.init (closed_states A hA.wf) hA.wf.initOk hfresh
+    (fun q hq => hA.wf.finalsOk q hq) rfl ?_ ?_ ?_ ?_ ?_
+  · simp [nfaTextbook, hinit]
+  · ext p
+    simp [nfaTextbook, hn_none]
+  · intro a
+    ext p
+    simp [nfaTextbook, hn_some]
+  · intro q hq a p
+    exact hstep q hq a p
+  · intro q
+    simp [nfaTextbook, hfin]
+
+/-! ## shuffle_product -/
+
+/-- **C08 (shuffle_product).**  `A.shuffle_product(B)` never fails, returns a valid NFA, and
+its language is the shuffle (all interleavings of a word of `L(A)` with a word of `L(B)`). -/
+theorem C08_shuffle_product (A : AV.NFA σ₁ α) (B : AV.NFA σ₂ α) (hA : A.Valid) (hB : B.Valid) :
+    ∃ R, NFA.shuffleProduct A B = .ok R ∧ R.Valid ∧ Lang R = shuffleLang (Lang A) (Lang B) := by
+  obtain ⟨R, hR, hval, _, hinit, _, hstep, hfin⟩ := shuffleProduct_spec A B hA hB
+  refine ⟨R, hR, hval, ?_⟩
+  refine accepts_shuffle (nfaTextbook R) (nfaTextbook A) (nfaTextbook B) {q | q ∈ A.states}
+    {q | q ∈ B.states} A.init B.init (closed_states A hA.wf) (closed_states B hB.wf)
+    hA.wf.initOk hB.wf.initOk rfl rfl ?_ ?_ ?_
+  · simp [nfaTextbook, hinit]
+  · intro p hp q hq a
+    ext t
+    exact hstep p hp q hq a t
+  · intro p _ q _
+    exact hfin p q
 
 end AV.Props.C08
